@@ -40,6 +40,9 @@ def is_immutable_value(prog, mod: Module, e: Optional[ast.expr]) -> bool:
         return is_immutable_value(prog, mod, e.operand)
     if isinstance(e, ast.BinOp):
         return is_immutable_value(prog, mod, e.left) and is_immutable_value(prog, mod, e.right)
+    if isinstance(e, ast.Name) and e.id in ('bool', 'int', 'float', 'complex', 'str', 'bytes', 'tuple', 'frozenset', 'list', 'dict',
+                                            'set', 'type', 'object', 'None', 'True', 'False') and prog.resolve_name(mod, e.id) is None:
+        return True             # a builtin type / constant (the type object itself is immutable)
     if isinstance(e, (ast.Name, ast.Attribute)):
         sym = prog.resolve_expr_symbol(mod, e)
         if isinstance(sym, (ClassInfo, FuncInfo, Module)):
